@@ -419,7 +419,9 @@ class Lexer:
                         "invalid escape sequence",
                         token=ErrorToken(
                             type_=TokenType.ERROR,
-                            index=self.pos,
+                            # `self.pos` is past the end of input if the backslash
+                            # is the last character.
+                            index=min(self.pos, len(self.source) - 1),
                             value=peeked,
                             markup_start=self.markup_start,
                             markup_stop=self.pos,
@@ -488,7 +490,9 @@ class Lexer:
                         "invalid escape sequence",
                         token=ErrorToken(
                             type_=TokenType.ERROR,
-                            index=self.pos,
+                            # `self.pos` is past the end of input if the backslash
+                            # is the last character.
+                            index=min(self.pos, len(self.source) - 1),
                             value=peeked,
                             markup_start=self.markup_start,
                             markup_stop=self.pos,
